@@ -1,9 +1,13 @@
 package gen
 
 import (
+	"fmt"
 	"math"
 	"math/rand"
 	"reflect"
+	"strconv"
+	"strings"
+	"time"
 )
 
 // Profile steers the random value filler.
@@ -16,10 +20,98 @@ type Profile struct {
 	RunLen      int // if > 0, null/non-null decisions are made in runs of about this length
 	runLeft     map[string]int
 	runNull     map[string]bool
+	hint        leafHint // what the tags of the struct field being filled say about its leaf values
 }
 
-var int32Pool = []int32{0, 1, -1, math.MinInt32, math.MaxInt32, 127, 128, -128, 255, 256, 65535, 65536, -65536}
+// leafHint carries the tag-derived constraints of the leaf below the struct field being filled:
+// values outside them are not "values of the type" as the documented tags define it (a uuid
+// string must parse, a []byte decimal must have the column's length, a date has no time of day).
+type leafHint struct {
+	timeUnit time.Duration // granularity of time.Time values (0 = nanosecond); 24h for date
+	fixedLen int           // > 0: []byte values have exactly this length (decimal on []byte)
+	uuidText bool          // string holding the text form of a UUID
+	jsonText bool          // string / []byte holding a JSON document
+	timeOfDay bool         // int32/int64 with the time tag: within a day
+}
+
+func hintOfTag(tag string, t reflect.Type) (h leafHint) {
+	for t.Kind() == reflect.Ptr || (t.Kind() == reflect.Slice && t.Elem().Kind() != reflect.Uint8) {
+		t = t.Elem()
+	}
+	for _, o := range splitTag(tag)[1:] {
+		name, args, _ := strings.Cut(o, "(")
+		args = strings.TrimSuffix(args, ")")
+		switch name {
+		case "date":
+			h.timeUnit = 24 * time.Hour
+		case "timestamp":
+			switch {
+			case strings.HasPrefix(args, "micro"):
+				h.timeUnit = time.Microsecond
+			case strings.HasPrefix(args, "nano"):
+				h.timeUnit = time.Nanosecond
+			default:
+				h.timeUnit = time.Millisecond
+			}
+		case "time":
+			h.timeOfDay = true
+		case "decimal":
+			if t.Kind() == reflect.Slice {
+				_, prec, _ := strings.Cut(args, ":")
+				p, _ := strconv.Atoi(prec)
+				h.fixedLen = int(math.Ceil((math.Log10(2) + float64(p)) / math.Log10(256)))
+			}
+		case "uuid":
+			h.uuidText = t.Kind() == reflect.String
+		case "json":
+			h.jsonText = true
+		}
+	}
+	return h
+}
+
+var timeType = reflect.TypeOf(time.Time{})
+var zeroLoc = time.FixedZone("verif", 3600)
+
+// seconds since the epoch: boundaries of the representable ranges of the three timestamp units,
+// the epoch itself (a value, not the zero time.Time), dates before 1970 (negative days, floor vs
+// truncation), leap day
+var timeSecPool = []int64{0, 1, -1, 86399, 86400, -86400, -86401, 951782400, 1700000000, 4102444800, -2208988800, 9214646400, -9214646400}
+
+func randTime(r *rand.Rand, p *Profile) time.Time {
+	unit := p.hint.timeUnit
+	if unit == 0 {
+		unit = time.Nanosecond
+	}
+	var sec, nsec int64
+	switch {
+	case p.SmallDomain:
+		sec = int64(r.Intn(4)) * 86400
+	case r.Intn(2) == 0:
+		sec = timeSecPool[r.Intn(len(timeSecPool))]
+	default:
+		sec = r.Int63n(4000000000) - 1000000000
+	}
+	if !p.SmallDomain && r.Intn(2) == 0 {
+		nsec = []int64{1, 999, 1000, 999999, 1000000, 999999999, 500000000}[r.Intn(7)]
+	}
+	t := time.Unix(sec, nsec).UTC()
+	if unit > time.Nanosecond {
+		t = t.Truncate(unit)
+	}
+	return t
+}
+
+var jsonPool = []string{`{}`, `[]`, `{"a":1}`, `"x"`, `[1,2,{"b":null}]`, `0`, `{"k":"v","n":[true,false]}`, `"\u00e9"`}
+
+var int32Pool = []int32{0, 1, -1, math.MinInt32, math.MaxInt32, 127, 128, -128, 255, 256, 65535, 65536, -65536, -256, 0x7f00, -0x8000, 0x01000000}
 var int64Pool = []int64{0, 1, -1, math.MinInt64, math.MaxInt64, math.MaxInt32, math.MinInt32, 1 << 32, -(1 << 32), 1 << 53}
+
+// unsigned boundary values; the second half are the values whose low-order bytes are all zero at
+// every width (a null test reading fewer bytes than the element sees them as zero) or whose
+// high-order bytes are zero
+var uintPool = []uint64{0, 1, math.MaxUint32, math.MaxUint64, 1 << 31, 1 << 63, math.MaxInt32, math.MaxInt64,
+	0x80, 0xff, 0x100, 0x8000, 0xff00, 0x10000, 0xffff0000, 1 << 32, 0xffffffff00000000, 0xff00000000000000, 0x0100000001000100}
 var f32Pool = []uint32{0, 0x80000000, 0x3f800000, 0xbf800000, 0x7f800000, 0xff800000, 0x7fc00000, 0x7fc00001, 0xffc12345, 0x00000001, 0x7f7fffff, 0x7fa00000}
 var f64Pool = []uint64{0, 0x8000000000000000, 0x3ff0000000000000, 0xbff0000000000000, 0x7ff0000000000000, 0xfff0000000000000, 0x7ff8000000000000, 0x7ff8000000000001, 0xfff8123456789abc, 1, 0x7fefffffffffffff, 0x7ff4000000000000}
 var strPool = []string{"", "a", "b", "ab", "abc", "abd", "\xff", "\xff\xff\xff\xff\xff\xff", "\x00", "hello world", "hello worle", "prefix-shared-0001", "prefix-shared-0002", "prefix-shared-0002x", "\xff\xff\xff\xfe", "zzzzzzzzzzzzzzzzzzzzzzzzzzzzzzzzzzzzzzzzzzzzzzzzzzzzzzzzzzzzzzzzzzzzzzzzzzzz"}
@@ -61,6 +153,23 @@ func Fill(r *rand.Rand, v reflect.Value, p *Profile, path string, isOptional boo
 		v.Set(nv)
 	case reflect.Struct:
 		t := v.Type()
+		if t == timeType {
+			// the zero time.Time is the null of an optional non-pointer field; every other
+			// instant (the epoch included) is a value
+			if isOptional && p.null(r, path) {
+				// the zero instant, sometimes carrying a location (time.Time{}.In(loc) is
+				// IsZero() but not the zero struct): null on every path
+				if r.Intn(3) == 0 {
+					v.Set(reflect.ValueOf(time.Time{}.In(zeroLoc)))
+				} else {
+					v.Set(reflect.Zero(t))
+				}
+				return
+			}
+			v.Set(reflect.ValueOf(randTime(r, p)))
+			return
+		}
+		saved := p.hint
 		for i := 0; i < t.NumField(); i++ {
 			tag := t.Field(i).Tag.Get("parquet")
 			opt := false
@@ -69,8 +178,13 @@ func Fill(r *rand.Rand, v reflect.Value, p *Profile, path string, isOptional boo
 					opt = true
 				}
 			}
+			p.hint = hintOfTag(tag, t.Field(i).Type)
+			if et := t.Field(i).Tag.Get("parquet-element"); et != "" {
+				p.hint = hintOfTag(et, t.Field(i).Type)
+			}
 			Fill(r, v.Field(i), p, path+"."+t.Field(i).Name, opt)
 		}
+		p.hint = saved
 	case reflect.Slice:
 		if v.Type().Elem().Kind() == reflect.Uint8 { // []byte
 			if isOptional && p.null(r, path) {
@@ -81,6 +195,15 @@ func Fill(r *rand.Rand, v reflect.Value, p *Profile, path string, isOptional boo
 			b := []byte(s)
 			if b == nil {
 				b = []byte{}
+			}
+			if n := p.hint.fixedLen; n > 0 {
+				b = make([]byte, n)
+				for i := range b {
+					b[i] = byte([]int{0, 1, 0xff, 0x80, r.Intn(256)}[r.Intn(5)])
+				}
+			}
+			if p.hint.jsonText {
+				b = []byte(jsonPool[r.Intn(len(jsonPool))])
 			}
 			v.SetBytes(b)
 			return
@@ -159,6 +282,13 @@ func Fill(r *rand.Rand, v reflect.Value, p *Profile, path string, isOptional boo
 		default:
 			x = int64(r.Uint64())
 		}
+		if p.hint.timeOfDay {
+			// milliseconds (int32) / micro- or nanoseconds (int64) within a day
+			if x < 0 {
+				x = -(x + 1)
+			}
+			x %= 86400000
+		}
 		switch v.Kind() {
 		case reflect.Int8:
 			x = int64(int8(x))
@@ -168,7 +298,7 @@ func Fill(r *rand.Rand, v reflect.Value, p *Profile, path string, isOptional boo
 			x = int64(int32(x))
 		}
 		v.SetInt(x)
-	case reflect.Uint8, reflect.Uint16, reflect.Uint32, reflect.Uint64:
+	case reflect.Uint8, reflect.Uint16, reflect.Uint32, reflect.Uint64, reflect.Uint:
 		if isOptional && p.null(r, path) {
 			v.SetUint(0)
 			return
@@ -178,7 +308,7 @@ func Fill(r *rand.Rand, v reflect.Value, p *Profile, path string, isOptional boo
 		case p.SmallDomain:
 			x = uint64(r.Intn(4))
 		case r.Intn(3) == 0:
-			x = []uint64{0, 1, math.MaxUint32, math.MaxUint64, 1 << 31, 1 << 63, math.MaxInt32, math.MaxInt64}[r.Intn(8)]
+			x = uintPool[r.Intn(len(uintPool))]
 		case r.Intn(2) == 0:
 			x = uint64(r.Intn(2000))
 		default:
@@ -237,7 +367,21 @@ func Fill(r *rand.Rand, v reflect.Value, p *Profile, path string, isOptional boo
 			}
 			return
 		}
-		v.SetString(randString(r, p))
+		switch {
+		case p.hint.uuidText:
+			var u [16]byte
+			for i := range u {
+				u[i] = byte([]int{0, 1, 0xff, r.Intn(256)}[r.Intn(4)])
+			}
+			if p.SmallDomain {
+				u = [16]byte{15: byte(1 + r.Intn(3))}
+			}
+			v.SetString(fmt.Sprintf("%x-%x-%x-%x-%x", u[0:4], u[4:6], u[6:8], u[8:10], u[10:16]))
+		case p.hint.jsonText:
+			v.SetString(jsonPool[r.Intn(len(jsonPool))])
+		default:
+			v.SetString(randString(r, p))
+		}
 	}
 }
 
